@@ -288,7 +288,15 @@ def run_check(prop, tier, seed, replay=None):
         ctx.model = Model()
 
     # 3+4 correspondence and direct oracle
-    res = mod.run(ctx)
+    try:
+        res = mod.run(ctx)
+    except Exception as e:  # noqa
+        # the harness could not drive the implementation (an interface it relies on changed): the correspondence
+        # no longer checks -- go on to the search phase; without a failing input this ends as no-failing-input-found
+        tb = traceback.format_exc().strip().splitlines()
+        broken.append("correspondence harness raised %s: %s (%s)" % (type(e).__name__, str(e)[:200], tb[-3].strip() if len(tb) >= 3 else ""))
+        res = Result()
+        res.rule = "correspondence run aborted by an exception in the harness"
 
     # 5 known findings
     known = load_known()
